@@ -13,7 +13,8 @@ use crate::util::{Json, Rng, clip, hash_str};
 pub struct C19P;
 pub static C19: C19P = C19P;
 
-pub const REWRITES: [&str; 11] = [
+pub const REWRITES: [&str; 12] = [
+    "name-group-body",
     "name-type-in-enclosing-group",
     "unused-definition-inside-group",
     "rename-binders",
@@ -215,8 +216,33 @@ pub fn apply_rewrite(h: &H, kind: &str, r: &mut Rng, root_ty: &GT, explicit: boo
             }
             None
         }
+        "name-group-body" => {
+            // the body of some group becomes the last definition of that group (no parentheses:
+            // the new definition joins the group), and the body is its name
+            let name = fresh("result");
+            for _ in 0..10 {
+                let t = r.usize(n);
+                if let Some(x) = at_node(h, t, &mut |x, _| match x {
+                    H::Let(nm, a, d, b) if !matches!(b.strip(), H::Let(..)) && !matches!(**b, H::Paren(_)) => {
+                        // explicit programs keep every definition annotated: only bodies whose
+                        // type is evident from their syntax
+                        let ann = match (explicit, site_type(b)) {
+                            (false, _) => None,
+                            (true, Some("int")) => Some(hb(H::Int)),
+                            (true, Some(_)) => Some(hb(H::Bool)),
+                            (true, None) => return None,
+                        };
+                        Some(H::Let(nm.clone(), a.clone(), d.clone(), hb(H::Let(name.clone(), ann, b.clone(), hb(H::Var(name.clone()))))))
+                    }
+                    _ => None,
+                }) {
+                    return Some(x);
+                }
+            }
+            None
+        }
         "unused-definition-in-front" => {
-            let name = fresh("unused");
+            let name = if r.chance(1, 4) { "_".to_owned() } else { fresh("unused") };
             let ann = if explicit { Some(hb(H::Int)) } else { None };
             // in front of a group the definition joins the group; elsewhere it forms its own
             Some(H::Let(name, ann, hb(H::lit(0)), hb(h.clone())))
@@ -225,7 +251,7 @@ pub fn apply_rewrite(h: &H, kind: &str, r: &mut Rng, root_ty: &GT, explicit: boo
             // directly after some definition of some group, anywhere in the program: in the middle
             // or at the end of that group; a literal or a function (both are values: nothing about
             // evaluation order or availability changes)
-            let name = fresh("unused");
+            let name = if r.chance(1, 4) { "_".to_owned() } else { fresh("unused") };
             let fun = r.chance(1, 2);
             let (ann, def) = if fun {
                 let y = fresh("uy");
@@ -673,7 +699,7 @@ impl Prop for C19P {
     fn plan(&self, tier: Tier, _seed: u64) -> Plan {
         let mut p = Plan::new(
             vec![sec("explicit-programs", tier.pick(10_000, 60_000)), sec("inferred-programs", tier.pick(4_000, 25_000))],
-            "generated programs x 10 sequences of 1-5 rewrites drawn from: consistent renaming of all binders, redundant parentheses, an unused definition in front, at a site or directly after any definition of any group (a literal or a function), naming a subexpression in place, wrapping in an immediately applied annotated identity function (at the root with the program's type, at int/bool sites), wrapping in `if true then .. else ..` with an other branch that may divide by zero, swapping adjacent function definitions, hoisting closed division-free literal arithmetic into an enclosing definition, giving a function type that occurs below a definition a name in that definition's own group; acceptance and printed value of original and rewritten program must agree (functions by head and implicit flag); non-trivial = distinct rewritten program",
+            "generated programs x 10 sequences of 1-5 rewrites drawn from: consistent renaming of all binders, redundant parentheses, an unused definition (named, or bound to `_`) in front, at a site or directly after any definition of any group (a literal or a function), turning the body of a group into its last definition, naming a subexpression in place, wrapping in an immediately applied annotated identity function (at the root with the program's type, at int/bool sites), wrapping in `if true then .. else ..` with an other branch that may divide by zero, swapping adjacent function definitions, hoisting closed division-free literal arithmetic into an enclosing definition, giving a function type that occurs below a definition a name in that definition's own group; acceptance and printed value of original and rewritten program must agree (functions by head and implicit flag); non-trivial = distinct rewritten program",
         );
         p.assumptions = vec![
             "each rewrite carries the side condition that makes it meaning-preserving in a call-by-value language with division by zero and divergence; a parenthesised group is never placed directly in the body position of a group".into(),
